@@ -38,9 +38,17 @@ func NewUnpackInfo(dst string, header *tar.Header) (UnpackInfo, error) {
 	}
 	path = filepath.Join(dst, path)
 
-	// Check for paths outside our directory, they are forbidden
+	// Check for paths outside our directory, they are forbidden. The
+	// comparison is made on whole path segments so that a sibling whose name
+	// merely begins with the destination's name (dst-other) is not mistaken
+	// for a path inside the destination.
 	target := filepath.Clean(path)
-	if !strings.HasPrefix(target, dst) {
+	cleanDst := filepath.Clean(dst)
+	dstPrefix := cleanDst
+	if !strings.HasSuffix(dstPrefix, string(filepath.Separator)) {
+		dstPrefix += string(filepath.Separator)
+	}
+	if target != cleanDst && !strings.HasPrefix(target, dstPrefix) {
 		return UnpackInfo{}, errors.New("invalid filename, traversal with \"..\" outside of current directory")
 	}
 
